@@ -6,6 +6,12 @@ NOTE = ("bounded scope only (declared lattices/catalogues/depths); exact Fractio
 TECH = "exhaustive small-scope enumeration of the real implementation against an exact reference model (explicit-state explorer written for this task)"
 
 CHECKS = {
+    "C05": ("Explicit-state BFS over diagram-building programs (add_node / add_edge over a universe of 10-12 tensor objects incl. collections, "
+            "a copy() twin and a dimension-3 tensor; every ordered pair, self edges and repeated edges; depth 3 quick / 4 thorough) with a reference "
+            "model of the bookkeeping stepped in lock-step: error conformance at every transition, calculate() compared entry by entry with an "
+            "independent label/union-find contraction, index types, constructor form; epsilon(n) n<=6/8 and delta(n,p) compared entry by entry "
+            "with cycle-parity / Leibniz-determinant definitions; tensor_product and ** against the diagrams they denote.",
+            NOTE, "explicit-state breadth-first search over operation sequences on the real TensorDiagram with a lock-step reference model; exhaustive entry enumeration for epsilon/delta", "DESIGN.md section 5, C05"),
     "C01": ("Every configuration of every supported join/meet arity and kind (2D pairs over {-2..2}^3, complex pairs, 3D pairs over {-1,0,1}^4, "
             "triples and 4-tuples over fixed point alphabets, collection layouts flat/grid/length-1/single-first/single-last) is executed on the "
             "real join/meet and the result compared with the exact span/intersection (integer/Fraction subspace algebra): class, tensor type, "
